@@ -195,6 +195,17 @@ def run_scenario(case, schedule):
                     conn.file_object, d)
                 rec.enable_encryption(secret)
             link = world.links[0]
+            if case.get('out_listeners'):
+                # outgoing listeners that only look (early and late): user
+                # code running between taking a packet off the queue and
+                # writing it, on whichever thread does the writing
+                seen_out = []
+                from minecraft.networking.packets import Packet as _P0
+                conn.register_packet_listener(
+                    lambda p: seen_out.append(0), _P0, early=True,
+                    outgoing=True)
+                conn.register_packet_listener(
+                    lambda p: seen_out.append(1), _P0, outgoing=True)
             nf = list(case.get('net_forced') or ())
             if nf:
                 # the peer sends len(nf) packets; an ordinary INCOMING
@@ -643,6 +654,10 @@ SMALL = [
      'mode': 'plain'},
     {'programs': [[('f', 70), ('f', 9)], [('q', 8)]], 'mode': 'plain',
      'net_forced': [12, 66]},
+    {'programs': [[('q', 10), ('q', 12)], [('d', False)]], 'mode': 'plain',
+     'out_listeners': True},
+    {'programs': [[('q', 10), ('f', 12)], [('q', 9), ('d', 0)]],
+     'mode': 'c64', 'out_listeners': True},
     {'programs': [[('f', 70), ('d', False)]], 'mode': 'c64',
      'net_forced': [70]},
     {'programs': [[('f', 8), ('q', 9), ('d', 1), ('rc',)]],
@@ -713,8 +728,9 @@ def case_strategy(fine):
         st.one_of(st.none(), st.sampled_from(IMMEDIATES)),
         st.sampled_from(['plain', 'c0', 'c64', 'cipher', 'both']),
         st.sampled_from([0, 0, 0, 40, 320])).map(build),
-        st.sampled_from([None, None, [9], [70, 8]])).map(
-            lambda t: dict(t[0], net_forced=t[1]) if t[1] else t[0])
+        st.sampled_from([None, None, [9], [70, 8], 'out'])).map(
+            lambda t: dict(t[0], out_listeners=True) if t[1] == 'out' else
+            dict(t[0], net_forced=t[1]) if t[1] else t[0])
 
 
 def t_random(ctx, n, fine):
